@@ -6,6 +6,7 @@ import (
 	"fmt"
 	"os"
 	"sort"
+	"strings"
 	"sync"
 )
 
@@ -77,6 +78,9 @@ func (r *Result) Sample(s string) {
 }
 
 func (r *Result) Fail(f Failure) {
+	if strings.HasPrefix(f.Impl, "SKIPPED-AFTER-HANGS") {
+		return // not an observation: the run was cut short after several hangs, which are reported
+	}
 	f.Stream = r.Stream
 	r.mu.Lock()
 	// at most 50 per kind, so that many correspondence diffs cannot crowd out an oracle failure
